@@ -194,6 +194,14 @@ theorem nest_memory_safe (r : NestRow) (hr : r ∈ nestTable) (m m2 : Nat) (tol 
   · have g := s.ran h
     exact ⟨fun x hx => by have := g.writes x hx; tauto, g.srow_in, g.scol_in⟩
 
+open PbVerif.Lemmas.LoopNest in
+/-- no entry of a two-level record is written twice (no recorded value overwrites another): the inner loop fills row `i + r` left to right,
+the outer writes go to their own constant rows below `r`, one column per outer step -/
+theorem nest_no_overwrite (r : NestRow) (hr : r ∈ nestTable) (m m2 : Nat) (tol : Rat) (d : Nat → Nat → Rat)
+    (fl : Nat → Nat → Nat → Bool) (ofl : Nat → Nat → Bool) : (nrun r m m2 tol d fl ofl).writes.Nodup :=
+  nrun_nodup r (List.all_eq_true.mp nest_rows_ok r hr)
+    (List.all_eq_true.mp (by decide +kernel : nestTable.all NestRow.distinct = true) r hr) m m2 tol d fl ofl
+
 -- non-vacuity: brpls' row with max_iter = 2, max_iter_2 = 1: the inner loop converges in its third step in outer step 0 and takes the
 -- early exit at once in outer step 1; goldindec's row raises for max_iter = 0
 example : (nestTable.find? (·.key == "brpls")).map (fun r =>
